@@ -513,6 +513,16 @@ def run(ctx: Any, prog: Program) -> None:
         if key is None:
             continue
         n_look += 1
+        if not _folded17(key):
+            # only what demonstrably is the matched text (or a literal-free expression of it) is a violation; a name of unknown origin
+            # (a parameter, a loop variable) is not judged
+            raw17 = {e.id for a in ast.walk(sub17) if isinstance(a, ast.Assign) and isinstance(a.value, (ast.Call, ast.Subscript)) and
+                     ((isinstance(a.value, ast.Call) and isinstance(a.value.func, ast.Attribute) and a.value.func.attr in ('groups', 'group')) or isinstance(a.value, ast.Subscript))
+                     for t in a.targets for e in ast.walk(t) if isinstance(e, ast.Name)}
+            roots17 = {y.id for y in ast.walk(key) if isinstance(y, ast.Name)}
+            if not (roots17 and roots17 <= raw17 | set(defs17)):
+                ctx.shape('C17.N10', False, vm17, x, f'where the key `{U(key)[:30]}` of the lookup `{U(x)[:40]}` comes from was not recognised', func='EntityFixup.substitute', text=f'lookup `{U(x)[:40]}` by casefolded name')
+                continue
         ctx.check('C17.N10', _folded17(key), vm17, x, f'EntityFixup.substitute looks `{U(key)[:30]}` up in the fixup table as matched: the table is keyed by casefolded names and the pattern ignores case, so `$Skin` in a template '
                   'finds nothing for the variable `skin` and is replaced by the default (or raises)', func='EntityFixup.substitute', text=f'lookup `{U(x)[:40]}` by casefolded name')
     ctx.shape('C17.N10', n_look >= 1, vm17, sub17, 'no lookup in the fixup table found in EntityFixup.substitute', func='EntityFixup.substitute', text='table lookups in substitute()')
